@@ -75,7 +75,7 @@ GBEnv ==
 GBInternal ==
     \/ (HsHit(c1) \/ HsFallback(c1) \/ HsMiss(c1) \/ HsJoin(c1) \/ HsCached(c1) \/ HsLead(c1)) /\ Same
     \/ \E n \in PNames : IssueReq(n) /\ gh' = Append(gh, Ev("issue", n, flight'[n].out, {})) /\ Keep
-    \/ \E n \in PNames : (IssueResp(n) \/ FlightRet(n)) /\ Same
+    \/ \E n \in PNames : (IssueResp(n) \/ IssueDone(n) \/ FlightRet(n)) /\ Same
     \/ \E s \in pending : Deliver(s) /\ gh' = Append(gh, Ev("install", "", 0, s)) /\ Keep
     \/ pending = {} /\ hs[c1].pc \in {"got", "failed"} /\ HsEnd(c1) /\ gh' = Append(gh, Ev("end", hs[c1].name, hs[c1].res, {})) /\ Keep
     \* the round: every timer fires, every request arrives (held by the fake), then one answer at a time
